@@ -280,6 +280,37 @@ func (e *c07Exp) mro() string {
 	return "?"
 }
 
+// json: the JSON text of a reference-free literal
+func (e *c07Exp) json() string {
+	switch e.kind {
+	case 'n':
+		return "null"
+	case 'i':
+		return fmt.Sprint(e.ival)
+	case 'd':
+		return e.ftext
+	case 's':
+		return fmt.Sprintf("%q", e.str)
+	case 't':
+		return "true"
+	case 'f':
+		return "false"
+	case 'a':
+		parts := make([]string, len(e.elems))
+		for i, x := range e.elems {
+			parts[i] = x.json()
+		}
+		return "[" + strings.Join(parts, ",") + "]"
+	case 'm', 'S':
+		parts := make([]string, len(e.elems))
+		for i, x := range e.elems {
+			parts[i] = fmt.Sprintf("%q:%s", e.keys[i], x.json())
+		}
+		return "{" + strings.Join(parts, ",") + "}"
+	}
+	return "null"
+}
+
 func (e *c07Exp) enc() string {
 	var sb strings.Builder
 	e.encTo(&sb)
